@@ -171,13 +171,18 @@ impl Prop for C04 {
   fn run(&self, env: &Env, _t: &str, shard: usize, nshards: usize, out: &mut Out) {
     let ev = |e: &Env, o: &mut Out, s: &str, cs: &Case| self.eval(e, o, s, cs);
     let (lo, hi) = shard_range(9998 - 27 + 1, shard, nshards);
+    let mut rev = Reverse::new(3);
     for y in 27 + lo as i64..27 + hi as i64 {
       if (238..=240).contains(&y) {
         out.skip("span_touches_the_AD_237_240_reform");
         continue;
       }
       run_case(env, out, "span", &Case::ints(&[y]), &ev);
+      rev.note("span", &Case::ints(&[y]));
     }
+    // every third span once more - descending, shuffled and concurrently, on fresh threads - after the ~8,700 lunations of
+    // this shard have all been requested once (an answer must not depend on how many other months were asked before)
+    rev.run(env, out, &ev);
     out.set_exhaustive("span", true);
   }
   fn eval(&self, env: &Env, out: &mut Out, sub: &str, case: &Case) {
